@@ -2,7 +2,7 @@
    canonical line out.  Written in Gallina so that the extracted binary and
    vm_compute inside coqc evaluate exactly the same function (run_line). *)
 From Coq Require Import ZArith QArith List Bool String Ascii.
-From Iso Require Import Spec.Cal Spec.Instant Model.Num Model.Helpers Model.Duration Model.TimePoint.
+From Iso Require Import Spec.Cal Spec.Instant Spec.ZoneText Model.Num Model.Helpers Model.Duration Model.TimePoint Model.LocalZone.
 Import ListNotations.
 Open Scope string_scope.
 
@@ -118,6 +118,17 @@ Definition op_table : list (string * rd string) :=
     ("ddays", md <- rMode ;; a <- rDur ;; ret (let '(d, sec) := days_and_seconds md a in unwords [show_Z d; show_Q sec]));
     ("dtodays", a <- rDur ;; ret (sh_dur (to_days a)));
     ("dtoweeks", a <- rDur ;; ret (sh_dur (match a with DW _ => a | DU _ _ d _ _ _ => dur_make 0 0 (d / 7) 0 0 0 0 end)));
+    (* local zone and unix epoch *)
+    ("localtz", tz <- rZ ;; alt <- rZ ;; dl <- rZ ;; dst <- rZ ;; ret (sh_z2 (get_local_time_zone tz alt dl dst)));
+    ("localfmt", m <- tok ;; tz <- rZ ;; alt <- rZ ;; dl <- rZ ;; dst <- rZ ;;
+       ret (get_local_time_zone_format
+              (if String.eqb m "reduced" then TzReduced else if String.eqb m "extended" then TzExtended else TzNormal)
+              tz alt dl dst));
+    ("s_readoffset", t <- tok ;; ret (sh_opt sh_z2 (read_offset t)));
+    ("fromunix", md <- rMode ;; n <- rQ ;; k <- tok ;;
+       (if String.eqb k "utc" then ret (sh_opt sh_tp (from_unix md n None))
+        else h <- rZ ;; m <- rZ ;; ret (sh_opt sh_tp (from_unix md n (Some (h, m))))));
+    ("tounix", md <- rMode ;; p <- rTp ;; ret (sh_opt show_Z (seconds_since_unix_epoch md p)));
     (* time point arithmetic *)
     ("add", md <- rMode ;; p <- rTp ;; x <- rDur ;; ret (sh_opt sh_tp (tp_add md p x)));
     ("subd", md <- rMode ;; p <- rTp ;; x <- rDur ;; ret (sh_opt sh_tp (tp_sub_dur md p x)));
